@@ -2,8 +2,8 @@
    Model: Capsule (capsule {addr, idtor}; constructor / owned-result / borrowed-result wrappers; method wrappers; the class
    destructor wrapper; <PREFIX>SHROUD_memory_destructor).  The temporary-buffer and release-code parts are the table
    theorems of dyn/C06_tables.v; the bounds of the string helpers are C10's theorems. *)
-From Coq Require Import List NArith Bool Arith.
-From Shroud Require Import Model.Capsule Proof.Capsule Model.PyHandles Proof.PyHandles.
+From Coq Require Import List NArith Bool Arith String.
+From Shroud Require Import Model.Capsule Proof.Capsule Model.PyHandles Proof.PyHandles Model.Release Proof.Release.
 Import ListNotations.
 
 (* every call sequence, of any length, in which the caller does not copy handles, does not use a handle after releasing
@@ -71,6 +71,28 @@ Example C06_python_example :
     [LibObject; New 1; Method 0; Borrow 0; Release 0; Release 1] /\
   Forall (fun x => x = None) (vars (py_run py_init [PLib; PNew 1; PAlias 0; PDrop 0; PMethod 1; PBorrow 0; PDrop 1; PDrop 2])).
 Proof. split; [reflexivity | cbn; repeat constructor]. Qed.
+
+(* the release code a checked wrapper stores beside a pointer selects a case of the library's switch that casts the pointer to
+   its own type and releases it with the matching deallocator (the regenerated table of dyn/C06_capsule.v passes lib_ok) *)
+Theorem C06_checked_site_releases_its_own_type : forall l s,
+  lib_ok l = true -> In s (rl_sites l) -> rs_code s <> 0 ->
+  exists c, In c (rl_cases l) /\ rc_code c = rs_code s /\
+            (rc_action c = "other"%string \/
+             (rc_type c = rs_type s /\ (rc_action c = "delete"%string \/ rc_action c = "free"%string) /\
+              (rs_how s = "new"%string -> rc_action c = "delete"%string))).
+Proof. exact checked_site_releases_its_own_type. Qed.
+Print Assumptions C06_checked_site_releases_its_own_type.
+
+Example C06_release_example :
+  let l := {| rl_name := "ex"%string; rl_cases := [{| rc_code := 0; rc_type := ""%string; rc_action := "none"%string |};
+                                             {| rc_code := 1; rc_type := "ns::Item"%string; rc_action := "delete"%string |};
+                                             {| rc_code := 2; rc_type := "char"%string; rc_action := "free"%string |}];
+              rl_sites := [{| rs_where := "ctor"%string; rs_code := 1; rs_type := "ns::Item"%string; rs_how := "new"%string |};
+                           {| rs_where := "dup"%string; rs_code := 2; rs_type := "char"%string; rs_how := "call"%string |};
+                           {| rs_where := "borrow"%string; rs_code := 0; rs_type := "ns::Item"%string; rs_how := "call"%string |}] |} in
+  lib_ok l = true /\
+  lib_ok {| rl_name := "bad"%string; rl_cases := rl_cases l; rl_sites := [{| rs_where := "dup"%string; rs_code := 1; rs_type := "char"%string; rs_how := "call"%string |}] |} = false.
+Proof. exact release_example. Qed.
 
 Example C06_admissible_history_exists :
   valid init [LibObject; New 1; New 2; Borrow 0; Method 0; Method 2; Destroy 0; Release 0; Release 0; Release 1; Release 2; Destroy 1] /\
